@@ -157,7 +157,7 @@ func genBitmap(r *vh.Rng, th bool) []Case {
 	type g struct{ bits, ppl, pl int }
 	// --- exhaustive small pools: 2, 4, 8 units; 3 holders; all sequences over the alphabet ---
 	small := []g{{32, 31, 32}, {32, 30, 32}, {32, 29, 32}, {128, 126, 128}, {128, 62, 64}, {32, 22, 24}}
-	maxLen := 3
+	maxLen := 2
 	if th {
 		maxLen = 4
 	}
@@ -175,11 +175,11 @@ func genBitmap(r *vh.Rng, th bool) []Case {
 			{K: "aspec", H: 2, A: u1, PL: sg.pl},
 		}
 		ml := maxLen
-		if gi >= 2 && !th {
-			ml = 2
-		}
 		if gi >= 3 && th {
 			ml = 3
+		}
+		if gi >= 3 && !th {
+			ml = 1
 		}
 		for n := 1; n <= ml; n++ {
 			seqs(alpha, n, func(ops []Op) {
@@ -188,7 +188,7 @@ func genBitmap(r *vh.Rng, th bool) []Case {
 			})
 		}
 		// sampled longer sequences over the same alphabet
-		ns := 80
+		ns := 50
 		if th {
 			ns = 2500
 		}
@@ -203,7 +203,7 @@ func genBitmap(r *vh.Rng, th bool) []Case {
 		}
 	}
 	// --- random long histories on pools up to 4096 units ---
-	nl := 60
+	nl := 40
 	if th {
 		nl = 1500
 	}
@@ -214,7 +214,7 @@ func genBitmap(r *vh.Rng, th bool) []Case {
 	for _, bits := range []int{32, 128} {
 		for ppl := 0; ppl <= bits; ppl++ {
 			for d := 0; d <= 12 && ppl+d <= bits; d++ {
-				if !th && !r.Chance(1, 8) {
+				if !th && !r.Chance(1, 20) {
 					continue
 				}
 				out = append(out, genBitmapGeo(r.Fork(), bits, ppl, ppl+d))
